@@ -120,33 +120,33 @@ registry! {
     c06_pair_hdel_hdel_pre1, "C06", thorough, 6, plain, 1500 => c06::pair(3, 3, 1); // A: HDEL, B: HDEL on one key, pre-state common LWW value; symbolic clocks and bytes; deltas cross-delivered once
     c06_pair_hdel_hdel_pre2, "C06", thorough, 6, plain, 1500 => c06::pair(3, 3, 2); // A: HDEL, B: HDEL on one key, pre-state common hash {f}; symbolic clocks and bytes; deltas cross-delivered once
     c06_dup_reorder, "C06", thorough, 6, plain, 1500 => c06::dup_reorder(); // SET/SET with each delta delivered twice
-    c03_twin, "C03", quick, 8, hasher, 120 => c03::twin();
-    c03_route_l0_n1, "C03", thorough, 8, hasher, 600 => c03::routing_agree(0, 1); // key = 0 symbolic ASCII bytes, 1 shards, transparent hasher
-    c03_route_l0_n2, "C03", thorough, 8, hasher, 600 => c03::routing_agree(0, 2); // key = 0 symbolic ASCII bytes, 2 shards, transparent hasher
-    c03_route_l0_n3, "C03", quick, 8, hasher, 600 => c03::routing_agree(0, 3); // key = 0 symbolic ASCII bytes, 3 shards, transparent hasher
-    c03_route_l0_n16, "C03", thorough, 8, hasher, 600 => c03::routing_agree(0, 16); // key = 0 symbolic ASCII bytes, 16 shards, transparent hasher
-    c03_route_l0_n64, "C03", thorough, 8, hasher, 600 => c03::routing_agree(0, 64); // key = 0 symbolic ASCII bytes, 64 shards, transparent hasher
-    c03_route_l1_n1, "C03", thorough, 8, hasher, 600 => c03::routing_agree(1, 1); // key = 1 symbolic ASCII bytes, 1 shards, transparent hasher
-    c03_route_l1_n2, "C03", thorough, 8, hasher, 600 => c03::routing_agree(1, 2); // key = 1 symbolic ASCII bytes, 2 shards, transparent hasher
-    c03_route_l1_n3, "C03", thorough, 8, hasher, 600 => c03::routing_agree(1, 3); // key = 1 symbolic ASCII bytes, 3 shards, transparent hasher
-    c03_route_l1_n16, "C03", quick, 8, hasher, 600 => c03::routing_agree(1, 16); // key = 1 symbolic ASCII bytes, 16 shards, transparent hasher
-    c03_route_l1_n64, "C03", thorough, 8, hasher, 600 => c03::routing_agree(1, 64); // key = 1 symbolic ASCII bytes, 64 shards, transparent hasher
-    c03_route_l2_n1, "C03", thorough, 8, hasher, 600 => c03::routing_agree(2, 1); // key = 2 symbolic ASCII bytes, 1 shards, transparent hasher
-    c03_route_l2_n2, "C03", quick, 8, hasher, 600 => c03::routing_agree(2, 2); // key = 2 symbolic ASCII bytes, 2 shards, transparent hasher
-    c03_route_l2_n3, "C03", thorough, 8, hasher, 600 => c03::routing_agree(2, 3); // key = 2 symbolic ASCII bytes, 3 shards, transparent hasher
-    c03_route_l2_n16, "C03", thorough, 8, hasher, 600 => c03::routing_agree(2, 16); // key = 2 symbolic ASCII bytes, 16 shards, transparent hasher
-    c03_route_l2_n64, "C03", thorough, 8, hasher, 600 => c03::routing_agree(2, 64); // key = 2 symbolic ASCII bytes, 64 shards, transparent hasher
-    c03_route_l3_n1, "C03", thorough, 8, hasher, 600 => c03::routing_agree(3, 1); // key = 3 symbolic ASCII bytes, 1 shards, transparent hasher
-    c03_route_l3_n2, "C03", thorough, 8, hasher, 600 => c03::routing_agree(3, 2); // key = 3 symbolic ASCII bytes, 2 shards, transparent hasher
-    c03_route_l3_n3, "C03", thorough, 8, hasher, 600 => c03::routing_agree(3, 3); // key = 3 symbolic ASCII bytes, 3 shards, transparent hasher
-    c03_route_l3_n16, "C03", thorough, 8, hasher, 600 => c03::routing_agree(3, 16); // key = 3 symbolic ASCII bytes, 16 shards, transparent hasher
-    c03_route_l3_n64, "C03", quick, 8, hasher, 600 => c03::routing_agree(3, 64); // key = 3 symbolic ASCII bytes, 64 shards, transparent hasher
-    c03_home_rpoplpush, "C03", quick, 8, hasher, 600 => c03::single_home(0, 2); // RPOPLPUSH with two distinct symbolic 1-byte keys, 2 shards
-    c03_home_lmove, "C03", thorough, 8, hasher, 600 => c03::single_home(1, 2); // LMOVE with two distinct symbolic 1-byte keys, 2 shards
-    c03_home_rename, "C03", quick, 8, hasher, 600 => c03::single_home(2, 2); // RENAME with two distinct symbolic 1-byte keys, 2 shards
-    c03_home_renamenx, "C03", thorough, 8, hasher, 600 => c03::single_home(3, 2); // RENAMENX with two distinct symbolic 1-byte keys, 2 shards
-    c03_home_msetnx, "C03", quick, 8, hasher, 600 => c03::single_home(4, 2); // MSETNX with two distinct symbolic 1-byte keys, 2 shards
-    c03_home_sortstore, "C03", thorough, 8, hasher, 600 => c03::single_home(5, 2); // SORTSTORE with two distinct symbolic 1-byte keys, 2 shards
+    c03_twin, "C03", quick, 12, hasher, 120 => c03::twin();
+    c03_route_l0_n1, "C03", thorough, 12, hasher, 600 => c03::routing_agree(0, 1); // key = 0 symbolic ASCII bytes, 1 shards, transparent hasher
+    c03_route_l0_n2, "C03", thorough, 12, hasher, 600 => c03::routing_agree(0, 2); // key = 0 symbolic ASCII bytes, 2 shards, transparent hasher
+    c03_route_l0_n3, "C03", quick, 12, hasher, 600 => c03::routing_agree(0, 3); // key = 0 symbolic ASCII bytes, 3 shards, transparent hasher
+    c03_route_l0_n16, "C03", thorough, 12, hasher, 600 => c03::routing_agree(0, 16); // key = 0 symbolic ASCII bytes, 16 shards, transparent hasher
+    c03_route_l0_n64, "C03", thorough, 12, hasher, 600 => c03::routing_agree(0, 64); // key = 0 symbolic ASCII bytes, 64 shards, transparent hasher
+    c03_route_l1_n1, "C03", thorough, 12, hasher, 600 => c03::routing_agree(1, 1); // key = 1 symbolic ASCII bytes, 1 shards, transparent hasher
+    c03_route_l1_n2, "C03", thorough, 12, hasher, 600 => c03::routing_agree(1, 2); // key = 1 symbolic ASCII bytes, 2 shards, transparent hasher
+    c03_route_l1_n3, "C03", thorough, 12, hasher, 600 => c03::routing_agree(1, 3); // key = 1 symbolic ASCII bytes, 3 shards, transparent hasher
+    c03_route_l1_n16, "C03", quick, 12, hasher, 600 => c03::routing_agree(1, 16); // key = 1 symbolic ASCII bytes, 16 shards, transparent hasher
+    c03_route_l1_n64, "C03", thorough, 12, hasher, 600 => c03::routing_agree(1, 64); // key = 1 symbolic ASCII bytes, 64 shards, transparent hasher
+    c03_route_l2_n1, "C03", thorough, 12, hasher, 600 => c03::routing_agree(2, 1); // key = 2 symbolic ASCII bytes, 1 shards, transparent hasher
+    c03_route_l2_n2, "C03", quick, 12, hasher, 600 => c03::routing_agree(2, 2); // key = 2 symbolic ASCII bytes, 2 shards, transparent hasher
+    c03_route_l2_n3, "C03", thorough, 12, hasher, 600 => c03::routing_agree(2, 3); // key = 2 symbolic ASCII bytes, 3 shards, transparent hasher
+    c03_route_l2_n16, "C03", thorough, 12, hasher, 600 => c03::routing_agree(2, 16); // key = 2 symbolic ASCII bytes, 16 shards, transparent hasher
+    c03_route_l2_n64, "C03", thorough, 12, hasher, 600 => c03::routing_agree(2, 64); // key = 2 symbolic ASCII bytes, 64 shards, transparent hasher
+    c03_route_l3_n1, "C03", thorough, 12, hasher, 600 => c03::routing_agree(3, 1); // key = 3 symbolic ASCII bytes, 1 shards, transparent hasher
+    c03_route_l3_n2, "C03", thorough, 12, hasher, 600 => c03::routing_agree(3, 2); // key = 3 symbolic ASCII bytes, 2 shards, transparent hasher
+    c03_route_l3_n3, "C03", thorough, 12, hasher, 600 => c03::routing_agree(3, 3); // key = 3 symbolic ASCII bytes, 3 shards, transparent hasher
+    c03_route_l3_n16, "C03", thorough, 12, hasher, 600 => c03::routing_agree(3, 16); // key = 3 symbolic ASCII bytes, 16 shards, transparent hasher
+    c03_route_l3_n64, "C03", quick, 12, hasher, 600 => c03::routing_agree(3, 64); // key = 3 symbolic ASCII bytes, 64 shards, transparent hasher
+    c03_home_rpoplpush, "C03", quick, 12, hasher, 600 => c03::single_home(0, 2); // RPOPLPUSH with two distinct symbolic 1-byte keys, 2 shards
+    c03_home_lmove, "C03", thorough, 12, hasher, 600 => c03::single_home(1, 2); // LMOVE with two distinct symbolic 1-byte keys, 2 shards
+    c03_home_rename, "C03", quick, 12, hasher, 600 => c03::single_home(2, 2); // RENAME with two distinct symbolic 1-byte keys, 2 shards
+    c03_home_renamenx, "C03", thorough, 12, hasher, 600 => c03::single_home(3, 2); // RENAMENX with two distinct symbolic 1-byte keys, 2 shards
+    c03_home_msetnx, "C03", quick, 12, hasher, 600 => c03::single_home(4, 2); // MSETNX with two distinct symbolic 1-byte keys, 2 shards
+    c03_home_sortstore, "C03", thorough, 12, hasher, 600 => c03::single_home(5, 2); // SORTSTORE with two distinct symbolic 1-byte keys, 2 shards
     c03_primary_0, "C03", quick, 8, plain, 300 => c03::primary_is_only_key(0); // single-key command: routing key == its key
     c03_primary_1, "C03", quick, 8, plain, 300 => c03::primary_is_only_key(1); // single-key command: routing key == its key
     c03_primary_2, "C03", thorough, 8, plain, 300 => c03::primary_is_only_key(2); // single-key command: routing key == its key
@@ -157,14 +157,14 @@ registry! {
     c03_primary_7, "C03", thorough, 8, plain, 300 => c03::primary_is_only_key(7); // single-key command: routing key == its key
     c03_primary_8, "C03", quick, 8, plain, 300 => c03::primary_is_only_key(8); // single-key command: routing key == its key
     c03_primary_9, "C03", thorough, 8, plain, 300 => c03::primary_is_only_key(9); // single-key command: routing key == its key
-    c18_twin, "C18", quick, 8, hasher, 120 => c18::twin();
-    c18_bucket_order_2, "C18", quick, 8, hasher, 300 => c18::bucket_order(2); // 2 arbitrary key digests, both orders
-    c18_bucket_order_3, "C18", quick, 8, hasher, 600 => c18::bucket_order(3); // 3 arbitrary key digests, all 6 orders
-    c18_state_order_d0, "C18", quick, 8, hasher, 900 => c18::state_insertion_order(0); // keys a,b with symbolic LWW values, two insertion orders, 1 bucket
-    c18_state_order_d1, "C18", thorough, 8, hasher, 1500 => c18::state_insertion_order(1); // same, 2 buckets
-    c18_sound_lww, "C18", quick, 8, hasher, 600 => c18::key_digest_sound(0); // two LWW values of one key with symbolic stamps/bytes/tombstones
-    c18_sound_expiry, "C18", quick, 8, hasher, 600 => c18::key_digest_sound(1); // same LWW value, symbolic expiries
-    c18_sound_hash, "C18", quick, 8, hasher, 900 => c18::key_digest_sound(2); // hash {f} with equal outer stamp, different field registers
+    c18_twin, "C18", quick, 12, hasher, 120 => c18::twin();
+    c18_bucket_order_2, "C18", quick, 12, hasher, 300 => c18::bucket_order(2); // 2 arbitrary key digests, both orders
+    c18_bucket_order_3, "C18", quick, 12, hasher, 600 => c18::bucket_order(3); // 3 arbitrary key digests, all 6 orders
+    c18_state_order_d0, "C18", quick, 12, hasher, 900 => c18::state_insertion_order(0); // keys a,b with symbolic LWW values, two insertion orders, 1 bucket
+    c18_state_order_d1, "C18", thorough, 12, hasher, 1500 => c18::state_insertion_order(1); // same, 2 buckets
+    c18_sound_lww, "C18", quick, 12, hasher, 600 => c18::key_digest_sound(0); // two LWW values of one key with symbolic stamps/bytes/tombstones
+    c18_sound_expiry, "C18", quick, 12, hasher, 600 => c18::key_digest_sound(1); // same LWW value, symbolic expiries
+    c18_sound_hash, "C18", quick, 12, hasher, 900 => c18::key_digest_sound(2); // hash {f} with equal outer stamp, different field registers
     c19_twin, "C19", quick, 8, plain, 300 => c19::twin();
     c19_from_config_3, "C19", quick, 8, plain, 600 => c19::from_config_ids(3); // 3-node cluster, replica_id symbolic in 1..=3
     c19_from_config_5, "C19", thorough, 8, plain, 1200 => c19::from_config_ids(5); // 5-node cluster, replica_id symbolic in 1..=5
@@ -192,4 +192,150 @@ registry! {
     c15_line_colon_t3_parser, "C15", thorough, 10, alloc, 900 => c15::line(58, 3, 2); // type byte ':' + 3 symbolic bytes, parser decoder
     c15_line_colon_t4_codec, "C15", thorough, 12, alloc, 400 => c15::line(58, 4, 1); // type byte ':' + 4 symbolic bytes, codec decoder
     c15_line_colon_t4_parser, "C15", thorough, 10, alloc, 900 => c15::line(58, 4, 2); // type byte ':' + 4 symbolic bytes, parser decoder
+    c01_twin, "C01", quick, 6, plain, 600 => c01::twin();
+    c01_list_get_0, "C01", thorough, 6, plain, 900 => c01::list_get(0); // LINDEX kernel, list of 0 symbolic bytes, index = any isize
+    c01_list_range_0, "C01", thorough, 6, plain, 1800 => c01::list_range(0); // LRANGE kernel, list of 0, start/stop = any isize pair
+    c01_list_trim_0, "C01", thorough, 6, plain, 1800 => c01::list_trim(0); // LTRIM kernel, list of 0, start/stop = any isize pair
+    c01_getrange_0, "C01", thorough, 6, plain, 1800 => c01::getrange(0); // GETRANGE on a 0-byte string, start/end = any isize pair
+    c01_list_get_1, "C01", quick, 6, plain, 900 => c01::list_get(1); // LINDEX kernel, list of 1 symbolic bytes, index = any isize
+    c01_list_range_1, "C01", thorough, 6, plain, 1800 => c01::list_range(1); // LRANGE kernel, list of 1, start/stop = any isize pair
+    c01_list_trim_1, "C01", thorough, 6, plain, 1800 => c01::list_trim(1); // LTRIM kernel, list of 1, start/stop = any isize pair
+    c01_list_set_1, "C01", thorough, 6, plain, 1800 => c01::list_set(1); // LSET kernel, list of 1, index = any isize
+    c01_getrange_1, "C01", thorough, 6, plain, 1800 => c01::getrange(1); // GETRANGE on a 1-byte string, start/end = any isize pair
+    c01_list_get_2, "C01", thorough, 6, plain, 900 => c01::list_get(2); // LINDEX kernel, list of 2 symbolic bytes, index = any isize
+    c01_list_range_2, "C01", quick, 6, plain, 1800 => c01::list_range(2); // LRANGE kernel, list of 2, start/stop = any isize pair
+    c01_list_trim_2, "C01", thorough, 6, plain, 1800 => c01::list_trim(2); // LTRIM kernel, list of 2, start/stop = any isize pair
+    c01_list_set_2, "C01", quick, 6, plain, 1800 => c01::list_set(2); // LSET kernel, list of 2, index = any isize
+    c01_getrange_2, "C01", quick, 6, plain, 1800 => c01::getrange(2); // GETRANGE on a 2-byte string, start/end = any isize pair
+    c01_list_get_3, "C01", quick, 6, plain, 900 => c01::list_get(3); // LINDEX kernel, list of 3 symbolic bytes, index = any isize
+    c01_list_range_3, "C01", thorough, 6, plain, 1800 => c01::list_range(3); // LRANGE kernel, list of 3, start/stop = any isize pair
+    c01_list_trim_3, "C01", thorough, 6, plain, 1800 => c01::list_trim(3); // LTRIM kernel, list of 3, start/stop = any isize pair
+    c01_list_set_3, "C01", thorough, 6, plain, 1800 => c01::list_set(3); // LSET kernel, list of 3, index = any isize
+    c01_getrange_3, "C01", thorough, 6, plain, 1800 => c01::getrange(3); // GETRANGE on a 3-byte string, start/end = any isize pair
+    c01_set_px, "C01", quick, 6, plain, 1200 => c01::set_px_then_observe(); // SET PX: px = any i64, now, dt < 2^40; then GET/TTL/PTTL
+    c01_set_ex, "C01", thorough, 6, plain, 1500 => c01::set_ex_then_observe(); // SET EX: s = any i64
+    c01_expire_opts, "C01", quick, 6, plain, 1500 => c01::expire_options(1000); // EXPIRE none|NX|XX|GT|LT, seconds = any i64, optional existing deadline
+    c01_pexpire_opts, "C01", thorough, 6, plain, 1500 => c01::expire_options(1); // PEXPIRE none|NX|XX|GT|LT, ms = any i64
+    c01_active_eviction, "C01", quick, 6, plain, 900 => c01::active_eviction(); // set_time(t) vs deadline d, all t,d
+    c01_empty_lpop, "C01", quick, 6, plain, 1200 => c01::empty_collection_removed(0); // LPOP of the last / not the last element
+    c01_empty_rpop, "C01", thorough, 6, plain, 1200 => c01::empty_collection_removed(1); // RPOP of the last / not the last element
+    c01_empty_ltrim, "C01", thorough, 6, plain, 1200 => c01::empty_collection_removed(2); // LTRIM of the last / not the last element
+    c01_empty_srem, "C01", quick, 6, plain, 1200 => c01::empty_collection_removed(3); // SREM of the last / not the last element
+    c01_empty_hdel, "C01", thorough, 6, plain, 1200 => c01::empty_collection_removed(4); // HDEL of the last / not the last element
+    c01_empty_zrem, "C01", thorough, 6, plain, 1200 => c01::empty_collection_removed(5); // ZREM of the last / not the last element
+    c17_twin, "C17", quick, 6, plain, 900 => c17::twin();
+    c17_wrongtype_incrby_list, "C17", quick, 6, plain, 1500 => c17::wrong_type(0); // 4-key world of every type, symbolic arguments
+    c17_wrongtype_append_hash, "C17", thorough, 6, plain, 1500 => c17::wrong_type(1); // 4-key world of every type, symbolic arguments
+    c17_wrongtype_getrange_list, "C17", thorough, 6, plain, 1500 => c17::wrong_type(2); // 4-key world of every type, symbolic arguments
+    c17_wrongtype_setrange_set, "C17", thorough, 6, plain, 1500 => c17::wrong_type(3); // 4-key world of every type, symbolic arguments
+    c17_wrongtype_lpush_string, "C17", quick, 6, plain, 1500 => c17::wrong_type(4); // 4-key world of every type, symbolic arguments
+    c17_wrongtype_lset_string, "C17", thorough, 6, plain, 1500 => c17::wrong_type(5); // 4-key world of every type, symbolic arguments
+    c17_wrongtype_hset_list, "C17", thorough, 6, plain, 1500 => c17::wrong_type(6); // 4-key world of every type, symbolic arguments
+    c17_wrongtype_sadd_hash, "C17", thorough, 6, plain, 1500 => c17::wrong_type(7); // 4-key world of every type, symbolic arguments
+    c17_wrongtype_hincrby_string, "C17", thorough, 6, plain, 1500 => c17::wrong_type(8); // 4-key world of every type, symbolic arguments
+    c17_wrongtype_lpop_hash, "C17", thorough, 6, plain, 1500 => c17::wrong_type(9); // 4-key world of every type, symbolic arguments
+    c17_wrongtype_getset_list, "C17", thorough, 6, plain, 1500 => c17::wrong_type(10); // 4-key world of every type, symbolic arguments
+    c17_wrongtype_setget_list, "C17", quick, 6, plain, 1500 => c17::wrong_type(11); // 4-key world of every type, symbolic arguments
+    c17_wrongtype_rpoplpush_to_string, "C17", thorough, 6, plain, 1500 => c17::wrong_type(12); // 4-key world of every type, symbolic arguments
+    c17_wrongtype_strlen_set, "C17", thorough, 6, plain, 1500 => c17::wrong_type(13); // 4-key world of every type, symbolic arguments
+    c17_badargs_incr_overflow, "C17", quick, 24, plain, 1500 => c17::bad_args(0); // right-typed key, failing symbolic arguments
+    c17_badargs_incr_nonnumber, "C17", thorough, 24, plain, 1500 => c17::bad_args(1); // right-typed key, failing symbolic arguments
+    c17_badargs_lset_range, "C17", quick, 24, plain, 1500 => c17::bad_args(2); // right-typed key, failing symbolic arguments
+    c17_badargs_setrange_huge, "C17", thorough, 24, plain, 1500 => c17::bad_args(3); // right-typed key, failing symbolic arguments
+    c17_badargs_set_badpx, "C17", thorough, 24, plain, 1500 => c17::bad_args(4); // right-typed key, failing symbolic arguments
+    c17_badargs_expire_range, "C17", thorough, 24, plain, 1500 => c17::bad_args(5); // right-typed key, failing symbolic arguments
+    c17_badargs_hincrby_nonnumber, "C17", thorough, 24, plain, 1500 => c17::bad_args(6); // right-typed key, failing symbolic arguments
+    c17_readonly_get, "C17", quick, 6, plain, 1500 => c17::read_only(0); // read-only op on a symbolic key of any type or a missing key
+    c17_readonly_strlen, "C17", thorough, 6, plain, 1500 => c17::read_only(1); // read-only op on a symbolic key of any type or a missing key
+    c17_readonly_getrange, "C17", thorough, 6, plain, 1500 => c17::read_only(2); // read-only op on a symbolic key of any type or a missing key
+    c17_readonly_llen, "C17", thorough, 6, plain, 1500 => c17::read_only(3); // read-only op on a symbolic key of any type or a missing key
+    c17_readonly_lindex, "C17", thorough, 6, plain, 1500 => c17::read_only(4); // read-only op on a symbolic key of any type or a missing key
+    c17_readonly_lrange, "C17", quick, 6, plain, 1500 => c17::read_only(5); // read-only op on a symbolic key of any type or a missing key
+    c17_readonly_hget, "C17", thorough, 6, plain, 1500 => c17::read_only(6); // read-only op on a symbolic key of any type or a missing key
+    c17_readonly_hlen, "C17", thorough, 6, plain, 1500 => c17::read_only(7); // read-only op on a symbolic key of any type or a missing key
+    c17_readonly_scard, "C17", thorough, 6, plain, 1500 => c17::read_only(8); // read-only op on a symbolic key of any type or a missing key
+    c17_readonly_ttl, "C17", quick, 6, plain, 1500 => c17::read_only(9); // read-only op on a symbolic key of any type or a missing key
+    c17_readonly_pttl, "C17", thorough, 6, plain, 1500 => c17::read_only(10); // read-only op on a symbolic key of any type or a missing key
+    c17_readonly_type, "C17", thorough, 6, plain, 1500 => c17::read_only(11); // read-only op on a symbolic key of any type or a missing key
+    c17_readonly_exists, "C17", thorough, 6, plain, 1500 => c17::read_only(12); // read-only op on a symbolic key of any type or a missing key
+    c04_twin, "C04", quick, 16, alloc, 300 => c04::twin();
+    c04_get_1_collect, "C04", quick, 16, alloc, 900 => c04::get_frame(b"1", Some(1), 1, false, false, 0); // GET frame, declared length text "1", 1 key byte(s), symbolic separators; batch collector
+    c04_get_1_fast, "C04", quick, 16, alloc, 900 => c04::get_frame(b"1", Some(1), 1, false, false, 1); // GET frame, declared length text "1", 1 key byte(s), symbolic separators; fast-path parser
+    c04_get_1_2nd_collect, "C04", thorough, 16, alloc, 900 => c04::get_frame(b"1", Some(1), 1, true, false, 0); // GET frame, declared length text "1", 1 key byte(s), symbolic separators, then a second GET; batch collector
+    c04_get_2_collect, "C04", thorough, 16, alloc, 900 => c04::get_frame(b"2", Some(2), 2, false, false, 0); // GET frame, declared length text "2", 2 key byte(s), symbolic separators; batch collector
+    c04_get_2_fast, "C04", thorough, 16, alloc, 900 => c04::get_frame(b"2", Some(2), 2, false, false, 1); // GET frame, declared length text "2", 2 key byte(s), symbolic separators; fast-path parser
+    c04_get_2_2nd_collect, "C04", quick, 16, alloc, 900 => c04::get_frame(b"2", Some(2), 2, true, false, 0); // GET frame, declared length text "2", 2 key byte(s), symbolic separators, then a second GET; batch collector
+    c04_get_0_collect, "C04", thorough, 16, alloc, 900 => c04::get_frame(b"0", Some(0), 0, false, false, 0); // GET frame, declared length text "0", 0 key byte(s), symbolic separators; batch collector
+    c04_get_0_fast, "C04", thorough, 16, alloc, 900 => c04::get_frame(b"0", Some(0), 0, false, false, 1); // GET frame, declared length text "0", 0 key byte(s), symbolic separators; fast-path parser
+    c04_get_0_2nd_collect, "C04", thorough, 16, alloc, 900 => c04::get_frame(b"0", Some(0), 0, true, false, 0); // GET frame, declared length text "0", 0 key byte(s), symbolic separators, then a second GET; batch collector
+    c04_get_2for1_collect, "C04", thorough, 16, alloc, 900 => c04::get_frame(b"2", Some(2), 1, false, false, 0); // GET frame, declared length text "2", 1 key byte(s), symbolic separators; batch collector
+    c04_get_2for1_fast, "C04", thorough, 16, alloc, 900 => c04::get_frame(b"2", Some(2), 1, false, false, 1); // GET frame, declared length text "2", 1 key byte(s), symbolic separators; fast-path parser
+    c04_get_2for1_2nd_collect, "C04", quick, 16, alloc, 900 => c04::get_frame(b"2", Some(2), 1, true, false, 0); // GET frame, declared length text "2", 1 key byte(s), symbolic separators, then a second GET; batch collector
+    c04_get_0for1_collect, "C04", thorough, 16, alloc, 900 => c04::get_frame(b"0", Some(0), 1, false, false, 0); // GET frame, declared length text "0", 1 key byte(s), symbolic separators; batch collector
+    c04_get_0for1_fast, "C04", thorough, 16, alloc, 900 => c04::get_frame(b"0", Some(0), 1, false, false, 1); // GET frame, declared length text "0", 1 key byte(s), symbolic separators; fast-path parser
+    c04_get_0for1_2nd_collect, "C04", thorough, 16, alloc, 900 => c04::get_frame(b"0", Some(0), 1, true, false, 0); // GET frame, declared length text "0", 1 key byte(s), symbolic separators, then a second GET; batch collector
+    c04_get_plus1_collect, "C04", thorough, 16, alloc, 900 => c04::get_frame(b"+1", Some(1), 1, false, false, 0); // GET frame, declared length text "+1", 1 key byte(s), symbolic separators; batch collector
+    c04_get_plus1_fast, "C04", thorough, 16, alloc, 900 => c04::get_frame(b"+1", Some(1), 1, false, false, 1); // GET frame, declared length text "+1", 1 key byte(s), symbolic separators; fast-path parser
+    c04_get_plus1_2nd_collect, "C04", thorough, 16, alloc, 900 => c04::get_frame(b"+1", Some(1), 1, true, false, 0); // GET frame, declared length text "+1", 1 key byte(s), symbolic separators, then a second GET; batch collector
+    c04_get_neg1_collect, "C04", thorough, 16, alloc, 900 => c04::get_frame(b"-1", None, 1, false, false, 0); // GET frame, declared length text "-1", 1 key byte(s), symbolic separators; batch collector
+    c04_get_neg1_fast, "C04", thorough, 16, alloc, 900 => c04::get_frame(b"-1", None, 1, false, false, 1); // GET frame, declared length text "-1", 1 key byte(s), symbolic separators; fast-path parser
+    c04_get_neg1_2nd_collect, "C04", thorough, 16, alloc, 900 => c04::get_frame(b"-1", None, 1, true, false, 0); // GET frame, declared length text "-1", 1 key byte(s), symbolic separators, then a second GET; batch collector
+    c04_get_empty_collect, "C04", thorough, 16, alloc, 900 => c04::get_frame(b"", None, 1, false, false, 0); // GET frame, declared length text "", 1 key byte(s), symbolic separators; batch collector
+    c04_get_empty_fast, "C04", thorough, 16, alloc, 900 => c04::get_frame(b"", None, 1, false, false, 1); // GET frame, declared length text "", 1 key byte(s), symbolic separators; fast-path parser
+    c04_get_empty_2nd_collect, "C04", thorough, 16, alloc, 900 => c04::get_frame(b"", None, 1, true, false, 0); // GET frame, declared length text "", 1 key byte(s), symbolic separators, then a second GET; batch collector
+    c04_get_2p31_collect, "C04", thorough, 26, alloc, 900 => c04::get_frame(b"2147483648", None, 1, false, false, 0); // GET frame, declared length text "2147483648", 1 key byte(s), symbolic separators; batch collector
+    c04_get_2p31_fast, "C04", thorough, 26, alloc, 900 => c04::get_frame(b"2147483648", None, 1, false, false, 1); // GET frame, declared length text "2147483648", 1 key byte(s), symbolic separators; fast-path parser
+    c04_get_2p31_2nd_collect, "C04", thorough, 26, alloc, 900 => c04::get_frame(b"2147483648", None, 1, true, false, 0); // GET frame, declared length text "2147483648", 1 key byte(s), symbolic separators, then a second GET; batch collector
+    c04_get_usizemax_collect, "C04", quick, 26, alloc, 900 => c04::get_frame(b"18446744073709551615", None, 1, false, false, 0); // GET frame, declared length text "18446744073709551615", 1 key byte(s), symbolic separators; batch collector
+    c04_get_usizemax_fast, "C04", quick, 26, alloc, 900 => c04::get_frame(b"18446744073709551615", None, 1, false, false, 1); // GET frame, declared length text "18446744073709551615", 1 key byte(s), symbolic separators; fast-path parser
+    c04_get_usizemax_2nd_collect, "C04", thorough, 26, alloc, 900 => c04::get_frame(b"18446744073709551615", None, 1, true, false, 0); // GET frame, declared length text "18446744073709551615", 1 key byte(s), symbolic separators, then a second GET; batch collector
+    c04_get_huge_collect, "C04", thorough, 26, alloc, 900 => c04::get_frame(b"99999999999999999999", None, 1, false, false, 0); // GET frame, declared length text "99999999999999999999", 1 key byte(s), symbolic separators; batch collector
+    c04_get_huge_fast, "C04", thorough, 26, alloc, 900 => c04::get_frame(b"99999999999999999999", None, 1, false, false, 1); // GET frame, declared length text "99999999999999999999", 1 key byte(s), symbolic separators; fast-path parser
+    c04_get_huge_2nd_collect, "C04", thorough, 26, alloc, 900 => c04::get_frame(b"99999999999999999999", None, 1, true, false, 0); // GET frame, declared length text "99999999999999999999", 1 key byte(s), symbolic separators, then a second GET; batch collector
+    c04_get_lower_collect, "C04", thorough, 16, alloc, 900 => c04::get_frame(b"1", Some(1), 1, false, true, 0); // lower-case get
+    c04_get_incomplete_5, "C04", thorough, 16, alloc, 600 => c04::get_incomplete(5); // well-formed GET cut after 5 of 22 bytes
+    c04_get_incomplete_14, "C04", thorough, 16, alloc, 600 => c04::get_incomplete(14); // well-formed GET cut after 14 of 22 bytes
+    c04_get_incomplete_15, "C04", quick, 16, alloc, 600 => c04::get_incomplete(15); // well-formed GET cut after 15 of 22 bytes
+    c04_get_incomplete_17, "C04", thorough, 16, alloc, 600 => c04::get_incomplete(17); // well-formed GET cut after 17 of 22 bytes
+    c04_get_incomplete_18, "C04", thorough, 16, alloc, 600 => c04::get_incomplete(18); // well-formed GET cut after 18 of 22 bytes
+    c04_get_incomplete_20, "C04", quick, 16, alloc, 600 => c04::get_incomplete(20); // well-formed GET cut after 20 of 22 bytes
+    c04_get_incomplete_21, "C04", thorough, 16, alloc, 600 => c04::get_incomplete(21); // well-formed GET cut after 21 of 22 bytes
+    c04_set_k1v1_collect, "C04", quick, 16, alloc, 1200 => c04::set_frame(1, 1, 0); // SET frame with symbolic separators
+    c04_set_k1v1_fast, "C04", quick, 16, alloc, 1200 => c04::set_frame(1, 1, 1); // SET frame with symbolic separators
+    c04_set_k1v2_collect, "C04", thorough, 16, alloc, 1200 => c04::set_frame(1, 2, 0); // SET frame with symbolic separators
+    c04_set_k1v2_fast, "C04", thorough, 16, alloc, 1200 => c04::set_frame(1, 2, 1); // SET frame with symbolic separators
+    c04_set_k2v1_collect, "C04", thorough, 16, alloc, 1200 => c04::set_frame(2, 1, 0); // SET frame with symbolic separators
+    c04_set_k2v1_fast, "C04", thorough, 16, alloc, 1200 => c04::set_frame(2, 1, 1); // SET frame with symbolic separators
+    c04_set_k2v2_collect, "C04", thorough, 16, alloc, 1200 => c04::set_frame(2, 2, 0); // SET frame with symbolic separators
+    c04_set_k2v2_fast, "C04", thorough, 16, alloc, 1200 => c04::set_frame(2, 2, 1); // SET frame with symbolic separators
+    c04_segment_1, "C04", thorough, 16, alloc, 900 => c04::segmentation(1); // SET k v + GET k (symbolic bytes) read in two chunks split after 1 bytes
+    c04_segment_4, "C04", thorough, 16, alloc, 900 => c04::segmentation(4); // SET k v + GET k (symbolic bytes) read in two chunks split after 4 bytes
+    c04_segment_9, "C04", thorough, 16, alloc, 900 => c04::segmentation(9); // SET k v + GET k (symbolic bytes) read in two chunks split after 9 bytes
+    c04_segment_13, "C04", thorough, 16, alloc, 900 => c04::segmentation(13); // SET k v + GET k (symbolic bytes) read in two chunks split after 13 bytes
+    c04_segment_14, "C04", quick, 16, alloc, 900 => c04::segmentation(14); // SET k v + GET k (symbolic bytes) read in two chunks split after 14 bytes
+    c04_segment_17, "C04", thorough, 16, alloc, 900 => c04::segmentation(17); // SET k v + GET k (symbolic bytes) read in two chunks split after 17 bytes
+    c04_segment_19, "C04", thorough, 16, alloc, 900 => c04::segmentation(19); // SET k v + GET k (symbolic bytes) read in two chunks split after 19 bytes
+    c04_segment_22, "C04", thorough, 16, alloc, 900 => c04::segmentation(22); // SET k v + GET k (symbolic bytes) read in two chunks split after 22 bytes
+    c04_segment_25, "C04", quick, 16, alloc, 900 => c04::segmentation(25); // SET k v + GET k (symbolic bytes) read in two chunks split after 25 bytes
+    c04_segment_28, "C04", thorough, 16, alloc, 900 => c04::segmentation(28); // SET k v + GET k (symbolic bytes) read in two chunks split after 28 bytes
+    c04_segment_31, "C04", quick, 16, alloc, 900 => c04::segmentation(31); // SET k v + GET k (symbolic bytes) read in two chunks split after 31 bytes
+    c04_segment_35, "C04", thorough, 16, alloc, 900 => c04::segmentation(35); // SET k v + GET k (symbolic bytes) read in two chunks split after 35 bytes
+    c04_segment_40, "C04", thorough, 16, alloc, 900 => c04::segmentation(40); // SET k v + GET k (symbolic bytes) read in two chunks split after 40 bytes
+    c16_twin, "C16", quick, 8, plain, 300 => c16::twin();
+    c16_diff_get_1, "C16", quick, 10, plain, 900 => c16::diff(b"GET", &[A::S(1)]); // GET with 1 argument(s)
+    c16_diff_get_0, "C16", thorough, 10, plain, 900 => c16::diff(b"GET", &[]); // GET with 0 argument(s)
+    c16_diff_get_2, "C16", thorough, 10, plain, 900 => c16::diff(b"GET", &[A::S(1), A::S(1)]); // GET with 2 argument(s)
+    c16_diff_set_2, "C16", thorough, 10, plain, 900 => c16::diff(b"SET", &[A::S(1), A::S(1)]); // SET with 2 argument(s)
+    c16_diff_set_ex, "C16", quick, 10, plain, 900 => c16::diff(b"SET", &[A::S(1), A::S(1), A::L(b"EX"), A::D(2)]); // SET with 4 argument(s)
+    c16_diff_set_px_nx, "C16", thorough, 10, plain, 900 => c16::diff(b"SET", &[A::S(1), A::S(1), A::L(b"PX"), A::D(2), A::L(b"NX")]); // SET with 5 argument(s)
+    c16_diff_expire_2, "C16", thorough, 10, plain, 900 => c16::diff(b"EXPIRE", &[A::S(1), A::D(2)]); // EXPIRE with 2 argument(s)
+    c16_diff_expire_gt, "C16", quick, 10, plain, 900 => c16::diff(b"EXPIRE", &[A::S(1), A::D(2), A::L(b"GT")]); // EXPIRE with 3 argument(s)
+    c16_diff_acl_help, "C16", quick, 10, plain, 900 => c16::diff(b"ACL", &[A::L(b"HELP")]); // ACL with 1 argument(s)
+    c16_diff_acl_whoami, "C16", thorough, 10, plain, 900 => c16::diff(b"ACL", &[A::L(b"WHOAMI")]); // ACL with 1 argument(s)
+    c16_diff_incrby, "C16", thorough, 10, plain, 900 => c16::diff(b"INCRBY", &[A::S(1), A::D(2)]); // INCRBY with 2 argument(s)
+    c16_diff_lrange, "C16", thorough, 10, plain, 900 => c16::diff(b"LRANGE", &[A::S(1), A::D(2), A::D(2)]); // LRANGE with 3 argument(s)
+    c16_diff_hset_2, "C16", thorough, 10, plain, 900 => c16::diff(b"HSET", &[A::S(1), A::S(1), A::S(1)]); // HSET with 3 argument(s)
+    c16_diff_zadd, "C16", thorough, 10, plain, 900 => c16::diff(b"ZADD", &[A::S(1), A::D(2), A::S(1)]); // ZADD with 3 argument(s)
+    c16_diff_getnil, "C16", thorough, 10, plain, 900 => c16::diff(b"GET", &[A::Nil]); // GET with 1 argument(s)
+    c16_diff_expire_int, "C16", thorough, 10, plain, 900 => c16::diff(b"EXPIRE", &[A::S(1), A::Int]); // EXPIRE with 2 argument(s)
 }
